@@ -98,6 +98,7 @@ def check(pid, tier, seed, machine, mc_cfg, gen_cfg, trace_module, adapter, sig,
     for b0 in range(0, max(len(items), 1), BATCH):
         part = items[b0:b0 + BATCH]
         traces = pool.map_items(adapter, adapter_fn, part, **({'fresh_every': 1, 'chunksize': 1, 'initname': None} if fresh_process else {}))
+        traces = [t for t in traces if t is not None]      # None: batch abandoned after repeated hangs (harness/pool.py)
         # 4 monitor
         bad, j = monitor.judge(trace_module, traces, run.work + "/mon")
         judged += j
